@@ -1,10 +1,12 @@
 package htsim
 
 import (
+	"bufio"
 	"bytes"
 	"encoding/json"
 	"fmt"
 	"net"
+	"net/http"
 	"strings"
 	"testing"
 	"testing/synctest"
@@ -74,6 +76,7 @@ func genC14(seed uint64, idx int, tier string) *Scenario {
 		peers = append(peers, p)
 		a := Actor{Kind: "tcppeer", Name: fmt.Sprintf("p%d", i), Src: fmt.Sprintf("%s:%d", p.IP, p.Port), Dst: fmt.Sprintf("127.0.0.1:%d", p.DPort)}
 		a.Ops = append(a.Ops, Op{K: "syn"}, Op{K: "ack"})
+		ackData := r.Chance(0.12) // the segment that acknowledges the SYN-ACK already carries the first data
 		total := r.Range(0, 4000)
 		if r.Chance(0.3) {
 			total = r.Range(0, 40)
@@ -97,6 +100,16 @@ func genC14(seed uint64, idx int, tier string) *Scenario {
 				pushed = true
 			}
 			if len(seg) == 0 && !last {
+				continue
+			}
+			if ackData && len(seg) > 0 && len(a.Ops) == 2 && a.Ops[1].Data == "" {
+				// fold the first data segment into the handshake ACK
+				a.Ops[1] = Op{K: "ack", Data: op.Data, Note: op.Note}
+				if op.Note != "psh" && r.Chance(0.85) {
+					// (unpushed data on the handshake ACK is known finding KF-C14-unpushed-data-on-handshake-ack:
+					// generated at a reduced rate, never excluded)
+					a.Ops[1].Note = "psh"
+				}
 				continue
 			}
 			a.Ops = append(a.Ops, op)
@@ -159,8 +172,10 @@ type peerState struct {
 	viol                            string
 	dataAcks                        int
 	timeline                        []string
-	lastSegMs, maxGapMs             int64  // last data segment; longest silence before a data segment
-	estMs, firstPushMs, firstDataMs int64  // simulated times of the handshake ACK, the first pushed segment, the first data
+	lastSegMs, maxGapMs             int64 // last data segment; longest silence before a data segment
+	estMs, firstPushMs, firstDataMs int64 // simulated times of the handshake ACK, the first pushed segment, the first data
+	ackWithData                     bool
+	ackUnpushed                     int    // bytes the handshake ACK carried without PSH
 	heldFin                         uint32 // crossed peers: sequence number after the listener's FIN, not acknowledged yet
 	crossedFins                     bool
 	needAck                         bool   // a data segment was sent whose acknowledgement has not been seen yet
@@ -327,8 +342,34 @@ func c14Execute(t *testing.T, sc *Scenario) *c14Run {
 				inject(ps, tcpSYN, nil)
 				ps.seq = ps.ISN + 1
 			case "ack":
-				inject(ps, tcpACK, nil)
 				ps.estMs = w.nowMs()
+				if b := op.Bytes(); len(b) > 0 {
+					// handshake ACK with data (RFC 793 allows it): everything that holds for a data segment holds
+					fl := byte(tcpACK)
+					if op.Note == "psh" {
+						fl |= tcpPSH
+					}
+					inject(ps, fl, b)
+					ps.seq += uint32(len(b))
+					ps.sentBytes += uint32(len(b))
+					ps.stream = append(ps.stream, b...)
+					if ps.haveSrv {
+						ps.needAck = true
+						ps.wantAck = ps.ISN + 1 + ps.sentBytes
+					}
+					if op.Note == "psh" {
+						ps.firstPush = len(ps.stream)
+						ps.firstPushMs = w.nowMs()
+						ps.lastSegMs = w.nowMs()
+					}
+					ps.firstDataMs = w.nowMs()
+					ps.ackWithData = true
+					if op.Note != "psh" {
+						ps.ackUnpushed = len(b)
+					}
+				} else {
+					inject(ps, tcpACK, nil)
+				}
 			case "data":
 				b := op.Bytes()
 				fl := byte(tcpACK)
@@ -473,8 +514,11 @@ func runC14(t *testing.T, sc *Scenario) Result {
 		// the listener's handler waits 60 s for data; a peer whose first data comes later than that after the
 		// handshake is reported with what had arrived by then (possibly nothing) - not judged for content
 		late := ps.firstPush > 0 && ps.firstPushMs-ps.estMs >= 59000 || ps.firstDataMs-ps.estMs >= 59000 || ps.maxGapMs >= 59000
-		if (ps.DPort == 80 || ps.DPort == 9200) && !bytes.Contains(ps.stream, []byte("\r\n\r\n")) {
-			late = true // (minimised scripts) an incomplete request is not reported by the protocol decoder
+		if ps.DPort == 80 || ps.DPort == 9200 {
+			// (minimised scripts) what is left of the request may not be a request any more
+			if _, err := http.ReadRequest(bufio.NewReader(bytes.NewReader(ps.stream))); err != nil {
+				late = true
+			}
 		}
 		if late {
 			res.probe("first-data-after-read-timeout", 1)
@@ -502,13 +546,21 @@ func runC14(t *testing.T, sc *Scenario) Result {
 				return res
 			}
 			if len(pl) < ps.firstPush && len(pl) < 2048 && !late {
-				res.Violate("event-payload-misses-first-push", "raw-tcp", fmt.Sprintf("peer %d: event payload has %d bytes, the first pushed segment ends at %d", i, len(pl), ps.firstPush))
+				site := "raw-tcp"
+				if ps.ackUnpushed > 0 && len(pl) == ps.ackUnpushed {
+					// known finding KF-C14-unpushed-data-on-handshake-ack: exactly the unpushed bytes the handshake ACK carried
+					site = "raw-tcp:unpushed-data-on-handshake-ack"
+				}
+				res.Violate("event-payload-misses-first-push", site, fmt.Sprintf("peer %d: event payload has %d bytes, the first pushed segment ends at %d", i, len(pl), ps.firstPush))
 				return res
 			}
 		}
 		res.probe("connections-verified", 1)
 		if ps.crossedFins {
 			res.probe("crossed-fins", 1)
+		}
+		if ps.ackWithData {
+			res.probe("data-on-handshake-ack", 1)
 		}
 	}
 	res.probe("frames-verified", run.frames)
